@@ -28,6 +28,8 @@ import (
 
 type env struct {
 	c      *drv.Ctx
+	engine string
+	kids   []bleve.Index // alias engine: the children (kids[2] is a spare, not a member at the start)
 	idx    bleve.Index
 	closed *atomic.Bool // Close has returned
 	cancel context.CancelFunc
@@ -166,6 +168,22 @@ var ops = []op{
 		}
 		return judge(e, "CopyTo", was, err)
 	}},
+	{"alias-swap", func(e *env) string {
+		e.idx.(bleve.IndexAlias).Swap([]bleve.Index{e.kids[2]}, []bleve.Index{e.kids[0]})
+		return "Swap"
+	}},
+	{"alias-add-remove", func(e *env) string {
+		a := e.idx.(bleve.IndexAlias)
+		a.Add(e.kids[2])
+		a.Remove(e.kids[1])
+		return "AddRemove"
+	}},
+	{"child-close", func(e *env) string {
+		if err := e.kids[1].Close(); err != nil {
+			e.c.Fail("error:child.Close", "closing a member index: %v", err)
+		}
+		return "ChildClose"
+	}},
 	{"close", func(e *env) string {
 		was := e.closed.Load()
 		err := e.idx.Close()
@@ -183,6 +201,9 @@ var ops = []op{
 		// spawned but never scheduled exit on their own), then nothing of the index may be left
 		// alive — a background loop still blocked or running here was not stopped by Close.
 		vrt.WaitIdle()
+		if e.engine == "alias" {
+			return "Close:ok" // the members stay open (closed by the epilogue)
+		}
 		for _, t := range vrt.Alive() {
 			if strings.HasPrefix(t, "scorch.go:") || strings.HasPrefix(t, "persister.go:") || strings.HasPrefix(t, "merge.go:") || strings.HasPrefix(t, "introducer.go:") {
 				e.c.Fail("close:background-alive", "Close returned but a scorch goroutine started at %s is still alive", t)
@@ -204,9 +225,24 @@ func opByName(n string) op {
 func body(engine string, names []string) func(c *drv.Ctx) {
 	return func(c *drv.Ctx) {
 		var idx bleve.Index
+		var kids []bleve.Index
 		vrt.Free(func() {
 			var err error
 			m := bleve.NewIndexMapping()
+			if engine == "alias" {
+				// an alias over an in-memory scorch index and an upsidedown index; a third index is the spare for Swap / Add
+				for k, typ := range [][2]string{{scorch.Name, scorch.Name}, {"upside_down", "gtreap"}, {"upside_down", "gtreap"}} {
+					kid, err := bleve.NewUsing("", m, typ[0], typ[1], nil)
+					if err != nil {
+						panic(err)
+					}
+					kid.Index(fmt.Sprintf("seed-%d", k), map[string]interface{}{"t": "hello"})
+					kid.Index(fmt.Sprintf("seed2-%d", k), map[string]interface{}{"t": "hello there"})
+					kids = append(kids, kid)
+				}
+				idx = bleve.NewIndexAlias(kids[0], kids[1])
+				return
+			}
 			if engine == "upsidedown" {
 				idx, err = bleve.NewUsing("", m, "upside_down", "gtreap", nil)
 			} else if engine == "upsidedown-boltdb" {
@@ -222,7 +258,7 @@ func body(engine string, names []string) func(c *drv.Ctx) {
 		})
 		var closed atomic.Bool
 		ctx, cancel := context.WithCancel(context.Background())
-		e := &env{c: c, idx: idx, closed: &closed, ctx: ctx, cancel: cancel}
+		e := &env{c: c, engine: engine, kids: kids, idx: idx, closed: &closed, ctx: ctx, cancel: cancel}
 		var wg vrt.WaitGroup
 		res := make([]string, len(names))
 		for i, n := range names {
@@ -256,6 +292,11 @@ func body(engine string, names []string) func(c *drv.Ctx) {
 			}
 			if _, err := idx.Search(bleve.NewSearchRequest(bleve.NewMatchAllQuery())); !isClosedErr(err) {
 				c.Fail("after-close:Search", "Search after Close returned %v", err)
+			}
+			for k, kid := range kids {
+				if err := kid.Close(); err != nil && !(isClosedErr(err) && k == 1) {
+					c.Fail("error:child.Close", "closing member %d after the alias: %v", k, err)
+				}
 			}
 			// nothing of the index may remain open once Close has returned (whatever was in flight)
 			if fds, _ := os.ReadDir("/proc/self/fd"); len(fds) > 0 {
@@ -336,6 +377,13 @@ func Scenarios() []drv.Scenario {
 		mk("upsidedown-boltdb", t...)
 	}
 	mk("scorch", "delete-missing", "batch", "close")
+	// an index alias (index_alias_impl.go): searches fan out to the members on their own goroutines while
+	// the member set is swapped, a member is closed, or the alias itself is closed
+	mk("alias", "search", "alias-swap", "close")
+	out[len(out)-1].Quick = []drv.Phase{{Bound: 1}}
+	for _, t := range [][]string{{"search", "child-close", "close"}, {"search-cancel", "cancel", "alias-swap"}, {"doccount", "alias-add-remove", "close"}, {"fielddict", "alias-swap", "close"}, {"document", "search", "alias-add-remove"}, {"search", "close", "close"}} {
+		mk("alias", t...)
+	}
 	return out
 }
 
